@@ -73,7 +73,9 @@ def parseNDLit? (t : String) : Option (ND Rat) :=
 def parseRhs? (s : Store) (t : String) : Option (Rhs Rat) :=
   if strTake t 2 == "n:" then (parseRat? (strDrop t 2)).map Rhs.num
   else if strTake t 3 == "nd:" then (parseNDLit? t).map Rhs.nd
-  else (s.arr? t).map Rhs.arr
+  else match s.nd? t with
+    | some v => some (Rhs.nd v)      -- an ndarray object: its *value* is assigned (a copy)
+    | none => (s.arr? t).map Rhs.arr
 
 def ratAbs (a : Rat) : Rat := if a < 0 then -a else a
 def ratSign (a : Rat) : Rat := if 0 < a then 1 else if a < 0 then -1 else 0
@@ -187,6 +189,16 @@ def arrayStep2 (s : Store) (toks : List String) : Option (Store × String) :=
         | _ => none
       some (a.itemsWhere f)) fun rows =>
         "|".intercalate (rows.map fun r => ",".intercalate (r.map showItem)))
+  | ["ndwrite", v, pos, c] =>
+    -- modify an ndarray object in place: nothing else in the store may change
+    some (match parseHandle? v, s.nd? v, pos.toNat?, parseRat? c with
+      | some hn, some a, some p, some q =>
+        let flat := a.toList.toArray
+        if p < flat.size then
+          let a' := ND.ofFlat a.shape (flat.set! p q) 0
+          (s.put hn (.nd a'), "ok " ++ showND a')
+        else (s, "err")
+      | _, _, _, _ => (s, "err"))
   | ["dump", x] => some (s, optStr (s.arr? x) showArr)
   | ["dumpall"] => some (s, "ok " ++ dumpAll s)
   | _ => none
